@@ -400,7 +400,11 @@ func c02(c *Ctx) {
 		var gen func(depth int, top bool) *node
 		gen = func(depth int, top bool) *node {
 			g := &node{op: []string{"", "AND", "OR"}[r.Intn(3)]}
-			for i, m := 0, 1+r.Intn(3); i < m; i++ {
+			m := 1 + r.Intn(3)
+			if !top && r.Intn(6) == 0 {
+				m = 0 // a group without members: `{}` and `{AND}` are true, `{OR}` is false
+			}
+			for i := 0; i < m; i++ {
 				if depth > 0 && r.Intn(5) < 2 {
 					g.kids = append(g.kids, gen(depth-1, false))
 				} else {
